@@ -244,7 +244,15 @@ def v_np_dpspr(c):
     c.ensure_eq("spread_at_peak_or_nan", r, want)
 
 
-@contract(NP + "alpha", props=["C20", "C02"], scenarios=[{}])
+def stub_alpha(spectrum, freq, fp):
+    """callers only rely on alpha returning a real number (its value clause is bounded)"""
+    import z3
+    from engine.pyse.core import fresh_name
+
+    return Sym(z3.Real(fresh_name("alpha")))
+
+
+@contract(NP + "alpha", props=["C20", "C02"], scenarios=[{}], stub=stub_alpha)
 def v_np_alpha(c):
     """safety on every path (0, 1, many frequencies in the tail window); value against the
     window-mean definition on concrete replays only (the symbolic equality needs a
